@@ -56,6 +56,15 @@ only and the stream ends with exactly one EOF (at the end of the input) or error
 def lexer_partition_stmt : Prop :=
   ∀ c : Ctx, c.fixed = true → ∀ toks, lexRun c = .done toks → lexSpec c (.toks toks true) = none
 
+/-- Full strength of "on rune boundaries": every token starts and ends where a rune of the input starts
+(no token cuts a multi-byte rune — what the snapshot's `peek` got wrong). Not proved: `lexer_in_bounds`
+gives the byte bounds only; the boundary part is covered by the correspondence (the model decodes at
+whatever byte offset the cursor has, and its token stream equals the implementation's on every generated
+input, including all short strings with 2-, 3- and 4-byte runes and invalid bytes). -/
+def lexer_rune_boundaries_stmt : Prop :=
+  ∀ c : Ctx, c.fixed = true → ∀ toks, lexRun c = .done toks →
+    ∀ t ∈ toks, Bnd c.inp t.pos ∧ Bnd c.inp (t.pos + tlen t)
+
 /-- Counterexample (defect repaired by af76a39): with `peek` as it was at the snapshot, `/é/` drives the
 cursor to -1 and the next `l.input[l.pos:]` panics in the lexer goroutine (the process dies). -/
 theorem oldLexer_traps :
